@@ -101,6 +101,8 @@ def gen(rng, tier):
             if case['nts'] is not None:
                 case['nts'] = min(case['nts'], nm - 1)
         yield case
+    for case in gen_tiny(rng, tier):
+        yield case
     for case in gen_slow(rng, tier):
         yield case
     for case in gen_traps(rng, tier):
@@ -133,6 +135,23 @@ def gen_slow(rng, tier):
         order = [0, 1, 0, 1, 0] if k == 2 else [0, 1, 0, 2, 0, 1, 0, 2, 0]
         rle = [[[labs[i], dwell + rng.randint(0, 99)] for i in order]]
         yield {'k': 'its', 'trajs': None, 'rle': rle, 'lags': [1, rng.choice([2, 5])], 'nts': None, 'style': 'slow', 'lumped': False, 'alpha': 'slow'}
+
+
+def gen_tiny(rng, tier):
+    for _ in range(1 if tier == 'quick' else 4):
+        # a two-state model whose count matrix has determinant ONE (Cassini triple of Fibonacci numbers, or
+        # [[10001, 10101], [10101, 10202]]): the second eigenvalue is a genuine positive 2.5e-9 .. 5.2e-9, far above
+        # rounding (1e-16) - its timescale -tau/ln(lambda) = 0.05 is a number, not NaN
+        a, b, d = rng.choice([(4181, 6765, 10946), (10001, 10101, 10202)])
+        labs = rng.sample([0, 1, 3, 8], 2)
+        q0, r0 = divmod(a, b + 1)
+        q1, r1 = divmod(d, b)
+        t = []
+        for i in range(b + 1):
+            t.append([labs[0], 1 + q0 + (1 if i < r0 else 0)])
+            if i < b:
+                t.append([labs[1], 1 + q1 + (1 if i < r1 else 0)])
+        yield {'k': 'its', 'trajs': None, 'rle': [t], 'lags': [1], 'nts': None, 'style': 'tiny-eigenvalue', 'lumped': False, 'alpha': 'tiny-eigenvalue'}
 
 
 def corpus():
